@@ -80,6 +80,10 @@ pub enum Ev {
     /// The manager comes back and works off its queue in arrival order, without any task running
     /// in between.
     ResumeManager,
+    /// Only while the manager is busy: the other connections of a big swarm have filled the
+    /// manager's command queue (64 slots) to the brim with statistics reports of a manager-only
+    /// peer ("crowd"), so that the next command of a connection task finds no free slot.
+    FillQueue,
 }
 
 pub struct PeerSide {
@@ -108,6 +112,8 @@ pub struct World {
     /// The manager (event loop) is gone: a panic, or an Err that `event_loop` turns into one.
     pub dead: Option<String>,
     pub manager_paused: bool,
+    /// How many filler commands the last FillQueue event could place.
+    pub queue_filled: usize,
     pub handler_panics: Vec<String>,
     /// Commands the manager handled during the last step (Debug, shortened).
     pub cmds: Vec<String>,
@@ -174,6 +180,7 @@ impl World {
             gated: cfg.gated,
             dead: None,
             manager_paused: false,
+            queue_filled: 0,
             handler_panics: vec![],
             cmds: vec![],
             choice_log: vec![],
@@ -269,7 +276,7 @@ impl World {
         let manager_paused = self.manager_paused;
         self.steps += 1;
         rdest::verif::set_choices(digits.to_vec());
-        let World { rt, local, session, peers, harness_rx, cmds, gated, start, broadcasts, mgr_peers, mgr_reply, .. } = self;
+        let World { rt, local, session, peers, harness_rx, cmds, gated, start, broadcasts, mgr_peers, mgr_reply, queue_filled, .. } = self;
         let gated = *gated;
         let start = *start;
         let res = core::catch(|| {
@@ -303,6 +310,15 @@ impl World {
                     }
                     Some(Ev::AddPeer(_)) => {}
                     Some(Ev::PauseManager) | Some(Ev::ResumeManager) => {}
+                    Some(Ev::FillQueue) => {
+                        let crowd = mgr_peers.last().expect("FillQueue needs a manager-only peer (the crowd)").clone();
+                        let tx = session.verif_peer_tx();
+                        let mut n = 0;
+                        while tx.try_send(rdest::verif::PeerCmd::SyncStats { addr: crowd.clone(), downloaded_rate: None, uploaded_rate: None, unexpected_blocks: 0 }).is_ok() {
+                            n += 1;
+                        }
+                        *queue_filled = n;
+                    }
                     Some(mgr_ev) => {
                         use rdest::verif::{Bitfield, PeerCmd};
                         let tx = session.verif_peer_tx();
